@@ -895,7 +895,7 @@ def truncate_at(sq, k):
 def run(ctx):
     libdir = build_default(ctx)
     REBUILD[libdir] = lambda: build_default(ctx)
-    proved = ctx.prove("C14", extra_targets=["C14/Run.vo", "C14/PyLayer.vo", "C14/Hybrid.vo", "C14/HybridProofs.vo"])
+    proved = ctx.prove("C14", extra_targets=["C14/Run.vo", "C14/PyLayer.vo", "C14/Hybrid.vo", "C14/HybridProofs.vo", "C14/StepGuard.vo"])
     rng = ctx.rng
     stable = qsort_is_stable()
     ctx.assumptions.append("platform qsort keeps equal hashes in index order (probed: %s); with an unstable qsort the exact "
@@ -1063,6 +1063,9 @@ def run(ctx):
     # ---------------- MERCURIUS bookkeeping scenarios (library only)
     mercurius_scenarios(ctx, build_default(ctx))
 
+    # ---------------- failed part1 / changed N: integrator arrays of an earlier N must not be touched
+    failed_step_probe(ctx, build_default(ctx))
+
     # ---------------- real variational particles: removal refused, simulation unchanged
     vres, vd = drive_variation(libdir)
     ctx.obligation("searcher:C14 removal with real variational particles (add_variation) is refused and changes nothing",
@@ -1150,6 +1153,132 @@ def mercurius_scenarios(ctx, libdir):
                               True, "the dcrit shift of reb_simulation_remove_particle reads past N_allocated_dcrit")
         except Exception as e:
             ctx.obligation("searcher:C14 MERCURIUS dcrit scenario under ASan completes", False, repr(e)[-500:])
+
+
+# ----------------------------------------------------------------------------- a step that fails in part1 must not touch
+# integrator arrays sized for an earlier N
+FAILED_STEP_SCRIPT = r"""import sys, json, math, warnings
+warnings.simplefilter("ignore")
+import rebound
+integ, setting, change = sys.argv[1], sys.argv[2], sys.argv[3]
+s = rebound.Simulation()
+s.add(m=1.); s.add(m=1e-3, a=1., e=0.05); s.add(m=5e-4, a=1.8, e=0.1, f=1.); s.add(m=3e-4, a=2.9, e=0.03, f=2.)
+s.integrator = integ; s.dt = 0.05
+s.steps(1)
+def apply_setting():
+    if setting == "coords_whds": s.ri_whfast.coordinates = "whds"
+    elif setting == "coords_dh": s.ri_whfast.coordinates = "democraticheliocentric"
+    elif setting == "coords_bary": s.ri_whfast.coordinates = "barycentric"
+    elif setting == "corrector_bad": s.ri_whfast.corrector = 4
+    elif setting == "kernel_bad": s.ri_whfast.kernel = 7
+    elif setting == "kernel_nonjacobi": s.ri_whfast.kernel = "modifiedkick"; s.ri_whfast.coordinates = "whds"
+    elif setting == "keep_unsync": (setattr(s.ri_whfast, "keep_unsynchronized", 1) if integ == "whfast" else setattr(s.ri_saba, "keep_unsynchronized", 1))
+    elif setting == "saba_type_bad": s.ri_saba._type = 0x50 if hasattr(s.ri_saba, "_type") else None
+    elif setting == "janus_order_bad": s.ri_janus.order = 3
+    elif setting == "gravity_tree": s.configure_box(100.); s.gravity = "tree"
+    elif setting == "collision_tree": s.configure_box(100.); s.collision = "tree"
+    elif setting == "none": pass
+def apply_change():
+    if change == "grow": s.add(m=1e-4, a=4.); s.add(m=1e-4, a=5.2, f=1.)
+    elif change == "addvar": v = s.add_variation(); v.particles[1].x = 1e-3
+    elif change == "shrink": s.remove(3); s.remove(2)
+    elif change == "grow_shrink": s.add(m=1e-4, a=4.); s.add(m=1e-4, a=5.2, f=1.); s.add(m=1e-4, a=7., f=2.); s.remove(1)
+    elif change == "none": pass
+apply_change(); apply_setting()
+def snap(): return [(p.x, p.y, p.z, p.vx, p.vy, p.vz, p.m) for p in s.particles]
+before = snap(); t0 = s.t; N0 = s.N
+exc = None
+try:
+    s.steps(1)
+except RuntimeError as e:
+    exc = str(e)[:80]
+after = snap()
+same = all((a == b) or (a != a and b != b) for A, B in zip(before, after) for a, b in zip(A, B)) and len(before) == len(after)
+finite = all(math.isfinite(x) for A in after for x in A)
+na = None
+for nm in ("ri_whfast",):
+    try: na = getattr(s, nm)._N_allocated
+    except Exception: pass
+print(json.dumps({"exc": exc, "t_advanced": s.t != t0, "same": same, "finite": finite, "N": s.N, "N0": N0, "whfast_N_allocated": na}))
+"""
+
+FAILED_STEP_SCENARIOS = (
+    [("whfast", st, "addvar") for st in ("coords_whds", "coords_dh", "coords_bary")] +
+    [("whfast", st, ch) for st in ("corrector_bad", "kernel_bad", "kernel_nonjacobi", "keep_unsync", "none") for ch in ("grow", "shrink", "grow_shrink", "addvar")] +
+    [("saba", st, ch) for st in ("coords_whds", "coords_dh", "saba_type_bad", "keep_unsync", "none") for ch in ("grow", "shrink", "grow_shrink")] +
+    [("saba", "none", "addvar")] +
+    [("janus", st, ch) for st in ("janus_order_bad", "none") for ch in ("grow", "shrink", "grow_shrink")] +
+    [("bs", "none", ch) for ch in ("grow", "shrink", "addvar")] +
+    [("ias15", "none", ch) for ch in ("grow", "shrink", "addvar", "grow_shrink")] +
+    [(ig, st, ch) for ig in ("mercurius", "trace") for st in ("collision_tree", "gravity_tree", "none") for ch in ("grow", "shrink", "grow_shrink")] +
+    [("eos", st, ch) for st in ("gravity_tree", "none") for ch in ("grow", "shrink")] +
+    [("leapfrog", "none", "grow"), ("sei", "none", "grow")]
+)
+
+
+def failed_step_probe(ctx, libdir):
+    from concurrent.futures import ThreadPoolExecutor
+    d = os.path.join(vlib.BUILD, "cases"); os.makedirs(d, exist_ok=True)
+    f = os.path.join(d, "c14_failed_step.py"); open(f, "w").write(FAILED_STEP_SCRIPT)
+    builds = [("default", vlib.pyenv(libdir))]
+    if ctx.thorough:
+        try:
+            adir = ctx.lib("default", cc="clang", extra_flags=["-fsanitize=address,undefined", "-fno-omit-frame-pointer",
+                                                               "-fno-sanitize-recover=undefined", "-fno-sanitize=nonnull-attribute"], tag="asan")
+            rt = subprocess.run(["clang", "-print-file-name=libclang_rt.asan-x86_64.so"], capture_output=True, text=True).stdout.strip()
+            e = vlib.pyenv(adir); e.update({"ASAN_OPTIONS": "detect_leaks=0:symbolize=0", "LD_PRELOAD": rt})
+            builds.append(("asan", e))
+        except Exception as ex:
+            ctx.obligation("searcher:C14 failed-step probe: ASan build", False, repr(ex)[-400:])
+
+    def one(job):
+        tag, env, sc = job
+        try:
+            r = subprocess.run([vlib.PY, f] + list(sc), env=env, capture_output=True, text=True, timeout=180, stdin=subprocess.DEVNULL)
+        except subprocess.TimeoutExpired:
+            return tag, sc, None, "timeout", 1
+        o = None
+        for line in reversed((r.stdout or "").splitlines()):
+            if line.startswith("{"):
+                try:
+                    o = json.loads(line)
+                except ValueError:
+                    pass
+                break
+        return tag, sc, o, (r.stdout or "")[-300:] + (r.stderr or "")[-1500:], r.returncode
+    jobs = [(tag, env, sc) for tag, env in builds for sc in FAILED_STEP_SCENARIOS]
+    with ThreadPoolExecutor(max_workers=vlib.JOBS) as ex:
+        results = list(ex.map(one, jobs))
+    nrun = 0; reported = set()
+    for tag, sc, o, err, rc in results:
+        ctx.evaluations += 1
+        what = None
+        if "AddressSanitizer" in err or "runtime error:" in err:
+            what = "sanitizer report during a step after the particle number changed: " + " ".join(
+                l for l in err.splitlines() if "AddressSanitizer" in l or "runtime error" in l)[:300]
+        elif rc < 0:
+            what = "process killed by signal %d" % -rc
+        elif o is None:
+            if "Fatal error" in err or "not yet implemented" in err or rc == 0:
+                continue            # reb_exit(): the library refuses the configuration outright
+            what = "probe died (exit %d): %s" % (rc, err[-200:])
+        else:
+            nrun += 1
+            stale = sc[0] in ("whfast", "saba") and o["whfast_N_allocated"] not in (None, o["N"])
+            if not o["finite"]:
+                what = "non-finite coordinates after the step"
+            elif o["exc"] and stale and (o["t_advanced"] or not o["same"]):
+                what = ("part1 failed (%s) with ri_whfast.N_allocated=%s != N=%d, yet the step advanced t / rewrote particles"
+                        % (o["exc"], o["whfast_N_allocated"], o["N"]))
+        if what:
+            key = {"whfast": "whfast-part2-after-failed-part1", "saba": "saba-part2-after-failed-part1"}.get(sc[0], "step-after-resize:" + sc[0])
+            if key not in reported:
+                reported.add(key)
+                ctx.violation(key, {"scenario": {"integrator": sc[0], "setting": sc[1], "change_of_N": sc[2], "build": tag,
+                                                 "script": "build/cases/c14_failed_step.py <integrator> <setting> <change>"}, "observed": o, "stderr": err[-600:]},
+                              True, what)
+    ctx.obligation("searcher:C14 failed-step probe ran (%d scenarios x %d builds, %d completed steps)" % (len(FAILED_STEP_SCENARIOS), len(builds), nrun),
+                   nrun >= len(FAILED_STEP_SCENARIOS) // 2, "")
 
 def drive_variation(libdir):
     script = r'''
